@@ -42,6 +42,18 @@ static void lst_make_sequence(vp_rng_t* r, int mode, uint64_t idx, seq_t* s)
     static const uint8_t codes[] = { 0,1,2,3,4,5,6,7,8,9,10,11,0x80,0x81,0x82,0x83,0x84,0x85,0x86,0x87,0x88,0x89,0x8A,0x8B,0x0C,0x7f,0x8C,0xff };
     int nd = 1 + (int)vp_rng_below(r, 3);
     const char* name = "?";
+    if (idx % 41 == 17) {                 /* soak: a long stream of valid interoperable messages through one listener instance */
+        int longp = (int)((idx / 41) & 1);
+        for (int d = 0; d < MAX_DGRAMS; d++) {
+            uint8_t b[DGRAM_MAX]; memset(b, 0, sizeof b);
+            static const uint8_t sc[] = { 9, 2, 10, 0x0B, 0x8B, 4, 7, 0 };
+            size_t n = build_valid(r, mode, (int)(vp_rng_next(r) & 1), b, 0, sc[d], longp ? 1300 + (uint32_t)vp_rng_below(r, 60) : 8 + (uint32_t)vp_rng_below(r, 40), 6, 0, 0x3fc00000);
+            seq_add(s, b, n);
+        }
+        s->repeat = longp ? 40 : 260;
+        snprintf(s->tmpl, sizeof s->tmpl, "%s", longp ? "soak-valid-long-paths" : "soak-valid-short-paths");
+        return;
+    }
     for (int d = 0; d < nd; d++) {
         uint8_t b[DGRAM_MAX]; memset(b, 0, sizeof b);
         int tscf = (int)(vp_rng_next(r) & 1);
